@@ -12,3 +12,4 @@ void h_dfcc_getnint(void) { cfg_opt_t *o; unsigned i; cfg_opt_getnint(o, i); }
 /* loops closed by loop contracts (DESIGN 10.8) */
 void h_dfcc_numopts(void) { cfg_opt_t *o; cfg_numopts(o); }
 void h_dfcc_getnopt(void) { cfg_t *c; unsigned i; cfg_getnopt(c, i); }
+void h_dfcc_num(void) { cfg_t *c; cfg_num(c); }
